@@ -8,6 +8,10 @@ CHECKS = {
    text="Generated operand tuples (boundary pool mixed with uniform) for every exported sm2_z256_* function are compared with Python integer arithmetic; scalar multiplication by four routes is compared with affine double-and-add. Exploration: finds counterexamples the generator reaches, never proves absence.",
    note="Trusted: Python integers, vlib/ref/sm2.py (validated against GB/T 32918 worked examples), ctypes marshalling. Operands of modular functions are below the modulus.",
    design="4/C13"),
+ "C03": dict(level="exploration", technique="property-based testing (Hypothesis): differential against OpenSSL digests/HMAC/PBKDF2 and Python HKDF/SM3-KDF, metamorphic chunking invariance, two build configurations",
+   text="Generated (algorithm, length, content, partition, key/salt/output length) cases; every streaming, one-shot and generic-dispatch interface must equal the OpenSSL/Python reference, including 2^29+delta byte messages. Exploration over a boundary-biased input space; not exhaustive.",
+   note="Trusted: OpenSSL 3 (hashlib/hmac/pbkdf2_hmac), the small Python HKDF/KDF models. Builds: default and ENABLE_SMALL_FOOTPRINT (ASan), plain -O2 for long messages. SIMD variants that do not compile on this image are not covered.",
+   design="4/C03"),
 }
 
 NOT_YET = {
